@@ -100,6 +100,8 @@ func (b Bytes) ParseBool() (bool, error) {
 	return false, errors.New("invalid bool value")
 }
 
+var errTooMuchDataForUint = errors.New("too much data for uint")
+
 func (b Bytes) ParseUint() (uint, error) {
 	if len(b) == 0 {
 		return 0, errors.New("not enough data in ParseUint")
@@ -110,7 +112,11 @@ func (b Bytes) ParseUint() (uint, error) {
 		if !IsDigit(c) {
 			return 0, fmt.Errorf("invalid byte (%s) found in ParseUint (%s)", string(c), b)
 		}
-		u = u*10 + uint(c-'0')
+		d := uint(c - '0')
+		if u > (math.MaxUint-d)/10 {
+			return 0, errTooMuchDataForUint
+		}
+		u = u*10 + d
 	}
 	return u, nil
 }
@@ -129,6 +135,9 @@ func (b Bytes) ParseInt() (int, error) {
 		u, err = b.ParseUint()
 	}
 
+	if err == errTooMuchDataForUint {
+		return 0, errors.New("too much data for int")
+	}
 	if err != nil {
 		return 0, err
 	}
